@@ -955,6 +955,7 @@ def m_iter_sum(E, st, fr, bi, callee, args, dest_ty):
     if type(item) is not I:
         raise Unsupported("sum of non-int")
     lo, hi = st.itv[item.vid]
+    E.ctx.emit("sum", frame=fr, bb=bi, item=item, n=n, st=st)
     nlo, nhi = st.itv[n.vid]
     cands = [lo * nlo, lo * nhi, hi * nlo, hi * nhi]
     slo, shi = min(cands + [0] if nlo == 0 else cands), max(cands + [0] if nlo == 0 else cands)
@@ -1320,13 +1321,17 @@ def m_shake_update(E, st, fr, bi, callee, args, dest_ty):
     h = deref2(E, st, args[0])
     s = as_seq(E, st, args[1])
     E.ctx.emit("absorb", frame=fr, bb=bi, hasher=h, data=args[1], seq=s, st=st)
-    write_through(E, st, args[0], Md("shake", {"absorbed": h.d.get("absorbed", 0) + 1, "site": h.d.get("site")}))
+    labs = set(h.d.get("labels", ()))
+    from .absint import iter_ints
+    for _, i in iter_ints(s):
+        labs |= set(st.taint.get(i.vid, ()))
+    write_through(E, st, args[0], Md("shake", {"absorbed": h.d.get("absorbed", 0) + 1, "site": h.d.get("site"), "labels": frozenset(labs)}))
     return ret1(UNIT, st)
 
 
 def m_shake_finalize(E, st, fr, bi, callee, args, dest_ty):
     h = args[0]
-    return ret1(Md("xof", {"absorbed": h.d.get("absorbed") if type(h) is Md else None}), st)
+    return ret1(Md("xof", {"absorbed": h.d.get("absorbed") if type(h) is Md else None, "labels": h.d.get("labels", frozenset()) if type(h) is Md else frozenset()}), st)
 
 
 def m_xof_read(E, st, fr, bi, callee, args, dest_ty):
@@ -1336,11 +1341,13 @@ def m_xof_read(E, st, fr, bi, callee, args, dest_ty):
     E.ctx.emit("squeeze", frame=fr, bb=bi, seq=s, st=st)
     n = st.const(s.len)
     hook = E.ctx.hooks.get("xof_bytes")
+    rd = deref2(E, st, args[0])
+    lab = (rd.d.get("labels") or EMPTY) if type(rd) is Md else EMPTY
     if n is not None and n <= 64:
-        head = {i: (E.ctx.mk_int(st, *hook(i), u8, taint=True) if hook else E.ctx.top_int(st, u8, taint=True)) for i in range(n)}
-        new = Sq(E.ctx.top_int(st, u8, taint=True), s.len, head, None)
+        head = {i: (E.ctx.mk_int(st, *hook(i), u8, taint=lab) if hook else E.ctx.top_int(st, u8, taint=lab)) for i in range(n)}
+        new = Sq(E.ctx.top_int(st, u8, taint=lab), s.len, head, None)
     else:
-        new = Sq(E.ctx.top_int(st, u8, taint=True), s.len, None, None)
+        new = Sq(E.ctx.top_int(st, u8, taint=lab), s.len, None, None)
     p = buf
     while type(p) is Pt and p.key is not None and type(E.load(st, p.key, p.proj)) is Pt:
         p = E.load(st, p.key, p.proj)
@@ -1358,7 +1365,11 @@ def m_transform_assumed(E, st, fr, bi, callee, args, dest_ty):
     s = as_seq(E, st, args[0])
     E.ctx.obligation("transform-layer", fr, bi, False, f"index arithmetic of {callee.name.split('::')[-1]} at len {st.itv[s.len.vid]} not analysed in this tier", callee.name.split("::")[-1]).assumed = reason
     u32 = E.ctx.ty_by_str("u32")
-    new = Sq(Ag((E.ctx.mk_int(st, 0, 12288, u32, taint=True),)), s.len, None, None)
+    from .absint import iter_ints
+    labs = set()
+    for _, i in iter_ints(s.elem):
+        labs |= set(st.taint.get(i.vid, ()))
+    new = Sq(Ag((E.ctx.mk_int(st, 0, 12288, u32, taint=frozenset(labs)),)), s.len, None, None)
     p = args[0]
     while type(p) is Pt and p.key is not None and type(E.load(st, p.key, p.proj)) is Pt:
         p = E.load(st, p.key, p.proj)
